@@ -483,3 +483,140 @@ Proof.
   assert (0 <= potS2 lc (l_snd st)) by (unfold potS2; nia).
   unfold pot2 in Hp at 1. lia.
 Qed.
+
+(* ================================================================================================ *)
+(* Part 8: what an agenda step does to the sender; the RTO stays above a positive bound *)
+
+Lemma sender_event_snd lc st e st' :
+  sender_event lc st e = inl st' ->
+  exists s' o, step (lc_fx lc) (lc_cfg lc) (l_snd st) e = Ok s' o /\ l_snd st' = norm_sender s'.
+Proof.
+  intros H. destruct (step (lc_fx lc) (lc_cfg lc) (l_snd st) e) as [s' o|x] eqn:Hstep;
+    [|unfold sender_event in H; rewrite Hstep in H; discriminate].
+  exists s', o. split; [reflexivity|].
+  unfold sender_event in H. rewrite Hstep in H. injection H as <-. lproj.
+  destruct (do_outs_pot lc o (set_snd st (norm_sender s'))) as [_ E].
+  destruct (_ <? _)%nat; destruct (_ && _); lproj; exact E.
+Qed.
+
+(* every agenda step leaves the sender alone or is one sender transition, on an ACK that does not
+   go backwards and carries a non-negative RTT sample *)
+Lemma lstep_sender lc cw ss rtt0 orc st st' :
+  lc_ok lc -> (zq (mss (lc_cfg lc)) <= cw)%Q -> (0 < rtt0)%Q ->
+  lreach lc (linit cw ss rtt0 orc) st -> lstep lc st = Some (inl st') ->
+  l_snd st' = l_snd st \/
+  exists e s' o, step repaired (lc_cfg lc) (l_snd st) e = Ok s' o /\ l_snd st' = norm_sender s' /\
+                 sample_ok e /\ ack_fwd (l_snd st) e.
+Proof.
+  intros Hok Hc Hr Hreach H. pose proof Hok as [Hfx Hm Hd].
+  destruct (reach_AB lc cw ss rtt0 orc st Hok Hc Hr Hreach) as [HA HB].
+  unfold lstep in H. destruct (l_agenda st) as [|a rest] eqn:E; [discriminate|].
+  injection H as H. fold (popped st a rest) in H.
+  destruct (pop_A lc st a rest HA E) as (P1 & P2 & _). pose proof (pop_B lc st a rest HB E) as PB.
+  change (l_snd st) with (l_snd (popped st a rest)).
+  assert (SE : forall stx e, l_snd stx = l_snd (popped st a rest) -> sample_ok e -> ack_fwd (l_snd (popped st a rest)) e ->
+                             sender_event lc stx e = inl st' ->
+               exists e s' o, step repaired (lc_cfg lc) (l_snd (popped st a rest)) e = Ok s' o /\ l_snd st' = norm_sender s' /\
+                              sample_ok e /\ ack_fwd (l_snd (popped st a rest)) e).
+  { intros stx e Es Hs Hf Hse. apply sender_event_snd in Hse as (s' & o & Hst & Hsn). rewrite Hfx, Es in Hst.
+    exists e, s', o. auto. }
+  assert (AK : forall ackno pid tm st1, ackno_of (ae_ev a) = Some ackno -> (tm <= ae_time a)%Q ->
+               deliver_ack lc (popped st a rest) ackno pid tm = inl st1 ->
+               exists e s' o, step repaired (lc_cfg lc) (l_snd (popped st a rest)) e = Ok s' o /\ l_snd (wa_get st1) = norm_sender s' /\
+                              sample_ok e /\ ack_fwd (l_snd (popped st a rest)) e).
+  { intros ackno pid tm st1 Ea Htm D. unfold deliver_ack in D. apply sender_event_snd in D as (s' & o & Hst & Hsn).
+    lproj. rewrite Hfx in Hst. eexists _, s', o. split; [exact Hst|]. split; [rewrite wa_get_snd; exact Hsn|]. split.
+    - cbn [sample_ok]. apply nq_nonneg. exact Htm.
+    - cbn [ack_fwd]. destruct (lb_eva _ _ _ PB (ae_ev a) ackno (or_introl eq_refl) Ea) as [[A _] _]. exact A. }
+  destruct (ae_ev a) as [| |id|id|w|w|id|id|ackno pid tm ct|ackno pid tm ct] eqn:Eev; cbn [handle] in H.
+  - right. eapply SE; eauto; exact I.
+  - right. eapply SE; eauto; exact I.
+  - left. destruct (find _ _) as [[k r]|]; injection H as <-; reflexivity.
+  - destruct (has_timer _ _); [right; eapply SE; eauto; exact I|left; injection H as <-; reflexivity].
+  - left. destruct w; injection H as <-; [apply wa_get_snd|apply wd_get_snd].
+  - left. destruct w; [destruct (wa_waiting _)|destruct (wd_waiting _)]; injection H as <-; rewrite ?wa_get_snd, ?wd_get_snd; reflexivity.
+  - left. destruct (pkt_get id _) as [[tm ct]|]; [|discriminate].
+    destruct (Qltb _ _); [injection H as <-; reflexivity|].
+    destruct (deliver_data lc _ id) as [st1|] eqn:D; cbn [bind] in H; [|discriminate]. injection H as <-.
+    rewrite wd_get_snd. eapply deliver_data_snd; eauto.
+  - left. destruct (deliver_data lc _ id) as [st1|] eqn:D; cbn [bind] in H; [|discriminate]. injection H as <-.
+    rewrite wd_get_snd. eapply deliver_data_snd; eauto.
+  - cbn [ev_time_ok] in P2. destruct (Qltb _ _); [left; injection H as <-; reflexivity|].
+    destruct (deliver_ack lc _ ackno pid tm) as [st1|] eqn:D; cbn [bind] in H; [|discriminate]. injection H as <-.
+    right. eapply AK; eauto. reflexivity.
+  - cbn [ev_time_ok] in P2.
+    destruct (deliver_ack lc _ ackno pid tm) as [st1|] eqn:D; cbn [bind] in H; [|discriminate]. injection H as <-.
+    right. eapply AK; eauto. reflexivity.
+Qed.
+
+(* (7/8)^k: each new ACK moves rtt_estimate at most one eighth of the way down to a sample >= 0 *)
+Fixpoint geo (k : nat) : Q := match k with O => 1 | S j => (7 # 8) * geo j end.
+
+Lemma geo_pos k : (0 < geo k)%Q.
+Proof. induction k as [|k IH]; cbn [geo]; lra. Qed.
+
+Lemma geo_S_le k : (geo (S k) <= geo k)%Q.
+Proof. cbn [geo]. pose proof (geo_pos k). lra. Qed.
+
+Lemma geo_mono k j : (k <= j)%nat -> (geo j <= geo k)%Q.
+Proof. induction 1 as [|j H IH]; [lra|]. pose proof (geo_S_le j). lra. Qed.
+
+Record RtoLow (rtt0 : Q) (s : sender) : Prop := {
+  rl_la : 0 <= last_ack s;
+  rl_srtt : (rtt0 * geo (Z.to_nat (last_ack s)) <= srtt s)%Q;
+  rl_rto : (srtt s <= rto s)%Q
+}.
+
+Lemma RtoLow_norm rtt0 s : RtoLow rtt0 s -> RtoLow rtt0 (norm_sender s).
+Proof. intros [A B C]. constructor; unfold norm_sender; proj; rewrite ?nq_eq; auto. Qed.
+
+Lemma RtoLow_init cw ss rtt0 : (0 < rtt0)%Q -> RtoLow rtt0 (init cw ss rtt0).
+Proof. intros H. constructor; unfold init; proj; cbn [Z.to_nat geo]; lra || lia. Qed.
+
+Lemma RtoLow_step c rtt0 s e s' o :
+  0 < mss c -> (0 < rtt0)%Q -> SInv c s -> sample_ok e -> ack_fwd s e -> RtoLow rtt0 s ->
+  step repaired c s e = Ok s' o -> RtoLow rtt0 s'.
+Proof.
+  intros Hm Hr I Hs Hf [A B C] H. destruct e as [ackno pid sample orc|id| |]; cbn [step] in H.
+  - apply on_ack_shape in H; [|apply I]. destruct H as (_ & _ & _ & _ & _ & [D|Nw]).
+    + destruct D as (_ & L & _ & _ & _ & SR & _ & R & _). constructor; rewrite ?L, ?SR, ?R; auto.
+    + destruct Nw as (Hne & L & _ & _ & _ & _ & SR & RV & R & _). cbn [sample_ok ack_fwd] in *.
+      pose proof (si_rttvar _ _ I) as Hrv. pose proof (Qabs_nonneg (sample - srtt s)) as Hab.
+      assert (G : (geo (Z.to_nat ackno) <= (7 # 8) * geo (Z.to_nat (last_ack s)))%Q).
+      { change ((7 # 8) * geo (Z.to_nat (last_ack s)))%Q with (geo (S (Z.to_nat (last_ack s)))). apply geo_mono. lia. }
+      constructor; rewrite ?L.
+      * lia.
+      * rewrite SR. nra.
+      * rewrite R, RV. lra.
+  - apply on_timer_shape in H as (_ & -> & _). constructor; proj; auto. pose proof (si_rto _ _ I). lra.
+  - apply on_storecb_shape in H as (_ & p & _ & [(_ & _ & ->)|(_ & ->)]); constructor; proj; auto.
+  - apply send_guard in H; [|exact Hm]. destruct H as (n & _ & _ & _ & _ & _ & L & _ & _ & _ & SR & _ & R & _). proj.
+    constructor; rewrite ?L, ?SR, ?R; auto.
+Qed.
+
+Lemma reach_RtoLow lc cw ss rtt0 orc st :
+  lc_ok lc -> (zq (mss (lc_cfg lc)) <= cw)%Q -> (0 < rtt0)%Q ->
+  lreach lc (linit cw ss rtt0 orc) st -> RtoLow rtt0 (l_snd st).
+Proof.
+  intros Hok Hc Hr. induction 1 as [|st st' Hreach IH Hstep]; [apply RtoLow_init; exact Hr|].
+  destruct (lstep_sender lc cw ss rtt0 orc st st' Hok Hc Hr Hreach Hstep) as [->|(e & s' & o & Hst & -> & Hs & Hf)]; [exact IH|].
+  apply RtoLow_norm. eapply RtoLow_step; eauto; [apply Hok|].
+  apply (reach_A lc cw ss rtt0 orc st Hok Hc Hr Hreach).
+Qed.
+
+(* THE RTO HAS A POSITIVE LOWER BOUND along every run: rto >= rtt_estimate >= rtt0 * (7/8)^last_ack
+   (and last_ack <= size).  In particular the RTO never reaches 0, also with delay 0, where every RTT
+   sample is 0 and rtt_estimate decays geometrically. *)
+Theorem loop_rto_lower_bound lc cw ss rtt0 orc st :
+  lc_ok2 lc -> (zq (mss (lc_cfg lc)) <= cw)%Q -> (0 < rtt0)%Q -> fsize (lc_cfg lc) <> 0 ->
+  lreach lc (linit cw ss rtt0 orc) st ->
+  (0 < rtt0 * geo (Z.to_nat (fsize (lc_cfg lc))) <= rto (l_snd st))%Q.
+Proof.
+  intros Hok2 Hc Hr Hfs Hreach. pose proof (ok2_ok _ Hok2) as Hok.
+  destruct (reach_RtoLow lc cw ss rtt0 orc st Hok Hc Hr Hreach) as [A B C].
+  destruct (loop_last_ack_le_prefix_le_next_seq lc cw ss rtt0 orc st Hok Hc Hr Hreach) as [[L1 L2] _].
+  pose proof (reach_ns_le lc cw ss rtt0 orc st Hok2 Hc Hr Hfs Hreach) as Hns.
+  pose proof (geo_pos (Z.to_nat (fsize (lc_cfg lc)))) as Hg.
+  assert (G : (geo (Z.to_nat (fsize (lc_cfg lc))) <= geo (Z.to_nat (last_ack (l_snd st))))%Q) by (apply geo_mono; lia).
+  split; [nra|]. nra.
+Qed.
